@@ -17,10 +17,15 @@ open TmVerif.LR TmVerif.CFG
 
 structure Cert where
   past : Array (List Int)
+  /-- per input `i`: a set of states containing `i` and closed under `edges` (an
+  over-approximation of the states that can occur on the stack of a parse started in `i`) -/
+  reach : Array (List Nat)
 deriving Repr, Inhabited
 
 def pastOf (c : Cert) (s : Int) : List Int :=
   if s < 0 then [] else c.past.getD s.toNat []
+
+def reachOf (c : Cert) (i : Nat) : List Nat := c.reach.getD i []
 
 def noDeep : Int → Option Int := fun _ => none
 
@@ -67,17 +72,29 @@ def edges (t : Tables) : List (Nat × Nat × Int) :=
       | some q => if q ≥ 0 then some (p, t.nTerms + k, q) else none
       | none => none)
 
-/-- acceptance: the final state of input `i` is entered only from the state after the start symbol
-(on EOI), which is entered only from the entry state on the start symbol. -/
-def finalOk (g : Grammar) (t : Tables) (i : Nat) : Bool :=
+/-- `reachOf c i` contains the entry state `i` and is closed under the transitions -/
+def reachOk (t : Tables) (c : Cert) (i : Nat) : Bool :=
+  (reachOf c i).contains i &&
+  (edges t).all (fun (p, _, q) =>
+    !(reachOf c i).contains p || decide (q < 0) || (reachOf c i).contains q.toNat)
+
+/-- acceptance: among the states reachable from the entry state `i`, the final state of input `i`
+is entered only from the state after the start symbol (on EOI), which is entered only from the
+entry state on the start symbol. (Relative to `reachOf c i`: minimized tables merge the dead
+final states of several inputs into one state, which then has predecessors that belong to the
+other inputs.) -/
+def finalOk (g : Grammar) (t : Tables) (c : Cert) (i : Nat) : Bool :=
   match g.inputs[i]?, t.finalStates[i]? with
   | some inp, some f =>
     match gotoState t i inp.sym with
     | some l =>
       decide ((g.inputs.size : Int) ≤ l) && decide ((g.inputs.size : Int) ≤ f) &&
-      (edges t).all (fun (p, x, q) => q != l || (p == i && x == inp.sym)) &&
+      reachOk t c i &&
+      (edges t).all (fun (p, x, q) =>
+        !(reachOf c i).contains p || q != l || (p == i && x == inp.sym)) &&
       (if inp.eoi then
-        decide (f ≠ l) && (edges t).all (fun (p, x, q) => q != f || ((p : Int) == l && x == 0))
+        decide (f ≠ l) && (edges t).all (fun (p, x, q) =>
+          !(reachOf c i).contains p || q != f || ((p : Int) == l && x == 0))
        else f == l)
     | none => false
   | _, _ => false
@@ -90,7 +107,7 @@ def certOk (g : Grammar) (t : Tables) (c : Cert) : Bool :=
   ((List.range t.nStates).all fun s =>
     ((stateActs t s).all (actOk g t c s)) &&
     ((List.range (t.nSyms - t.nTerms)).all fun k => gotoOk g.inputs.size t c s (t.nTerms + k))) &&
-  ((List.range g.inputs.size).all fun i => finalOk g t i)
+  ((List.range g.inputs.size).all fun i => finalOk g t c i)
 
 /-! ### computing the certificate (untrusted) -/
 
@@ -119,12 +136,24 @@ def pastFuel (t : Tables) (es : List (Nat × Nat × Int)) (nIn : Nat) :
     let p' := pastRound t es nIn p
     if p' == p then p else pastFuel t es nIn n p'
 
+/-- one BFS round over all edges: add the targets of edges whose source is already in the set -/
+def reachRound (es : List (Nat × Nat × Int)) (r : List Nat) : List Nat :=
+  es.foldl (fun acc (p, _, q) =>
+    if acc.contains p && decide (0 ≤ q) && !acc.contains q.toNat then q.toNat :: acc else acc) r
+
+def reachFuel (es : List (Nat × Nat × Int)) : Nat → List Nat → List Nat
+  | 0, r => r
+  | n + 1, r =>
+    let r' := reachRound es r
+    if r'.length == r.length then r else reachFuel es n r'
+
 def computePast (g : Grammar) (t : Tables) : Cert :=
   let nIn := g.inputs.size
   let init : Array (Option (List Int)) := (Array.range t.nStates).map fun s => if s < nIn then some [] else none
   let es := edges t
   let res := pastFuel t es nIn (t.nStates * 8 + 16) init
-  { past := res.map fun o => o.getD [] }
+  { past := res.map fun o => o.getD [],
+    reach := (Array.range nIn).map fun i => reachFuel es (t.nStates + 2) [i] }
 
 /-- diagnostics: the first failing condition -/
 def firstFailure (g : Grammar) (t : Tables) (c : Cert) : String :=
@@ -139,8 +168,10 @@ def firstFailure (g : Grammar) (t : Tables) (c : Cert) : String :=
         | none => none) with
   | some m => m
   | none =>
-    match (List.range g.inputs.size).find? (fun i => !finalOk g t i) with
-    | some i => s!"input {i}: the final state can be entered from a state other than the one after the start symbol [C01-shared-final-state]"
+    match (List.range g.inputs.size).find? (fun i => !finalOk g t c i) with
+    | some i =>
+      if !reachOk t c i then s!"input {i}: the reachable-state set of the certificate is not closed under the transitions"
+      else s!"input {i}: the final state can be entered from a state other than the one after the start symbol [C01-shared-final-state]"
     | none => "certificate rejected"
 
 end TmVerif.LRSound
